@@ -1,4 +1,6 @@
 import Juniper.Proofs.StreamReduce
+import Juniper.Proofs.StreamLast
+import Juniper.Proofs.StreamRuns
 /-!
 # C08 — stream failures surface intact and never lose or duplicate items (property theorems,
 caller's-goroutine combinators)
@@ -138,11 +140,33 @@ theorem reduce_err {γ : Type v} {m : SM σ α} {cost : σ → Nat} {s : σ} {L 
     simp only [foldRes, h']
     exact ih acc'
 
+theorem last_err {m : SM σ α} {cost : σ → Nat} {s : σ} {L : List (α × Nat)} {E : Err} (n : Nat)
+    (h : SDen strict m cost s L (.fail E)) :
+    ∃ F, ∀ fuel, F ≤ fuel → (last m (n : Int) true fuel s).1 = .error E := by
+  obtain ⟨F, hF⟩ := last_sden n h
+  exact ⟨F, fun fuel hf => by simpa [outOf] using hF fuel hf⟩
+
+theorem one_err {m : SM σ α} {cost : σ → Nat} {s : σ} {L : List (α × Nat)} {E : Err}
+    (h : SDen strict m cost s L (.fail E)) (hl : L.length ≤ 1) :
+    ∃ F, ∀ fuel, F ≤ fuel → (one m true fuel s).1 = .error E := by
+  obtain ⟨F, hF⟩ := one_sden h
+  refine ⟨F, fun fuel hf => ?_⟩
+  rw [hF fuel hf]
+  match L, hl with
+  | [], _ => rfl
+  | [_], _ => rfl
+
 theorem sample_err {m : SM σ α} {cost : σ → Nat} {s : σ} {L : List (α × Nat)} {E : Err}
     (h : SDen strict m cost s L (.fail E)) :
     ∃ F, ∀ fuel, F ≤ fuel → (sampleCount m true fuel s).1 = .error E := by
   obtain ⟨F, hF⟩ := sample_sden h
   exact ⟨F, fun fuel hf => by simpa [outOf] using hF fuel hf⟩
+
+/-- `Runs` under faults (`runs_sden`, stated in C07 as `s_runs_denotes`): a failure in the middle of a
+run drops that run and surfaces itself; a failed call that costs nothing — whether it hit the outer
+stream while it was skipping the rest of a run, or an inner stream — changes nothing. -/
+theorem runs_fatal (same : α → α → Bool) (take : Option Nat) (acc : List α) (prev : α) (E : Err) :
+    runsGoS same take (some acc) prev [] (.fail E) = [] := rfl
 
 /-- the reducer's view of a script: the items before the first failure of any kind, then that failure -/
 theorem source_strict_denotes (sc : List (Ev α)) :
